@@ -213,13 +213,24 @@ def menu(gen):
         st["timer"] = not st["timer"]
         return [w.console.ac_status_frame(only=[1])]
 
+    def reinit(w):
+        # the application shuts the client down and initialises the same object again; the console answers the
+        # handshake from its current state, and frames received afterwards count exactly as before
+        w.spawn(w.at.shutdown())
+        w.loop.run_until(w.loop.time() + 1.0)
+        w.init_result.clear()
+        w.start_init()
+        w.loop.run_until(w.loop.time() + 1.0)
+        assert w.init_result and w.init_result[-1][:2] == ("returned", True), w.init_result
+        return []
+
     def repeat_last(w):
         return [w.console.ac_status_frame(), w.console.zone_status_frame()]
 
     return [("ac0-A", ac(0, "A")), ("ac0-B", ac(0, "B")), ("ac1-B", ac(1, "B")), ("both-acs", both_acs),
             ("zone0-A", zone(0, "A")), ("zone0-B", zone(0, "B")), ("zone2-B", zone(2, "B")), ("all-zones", all_zones),
             ("timer", timer), ("error-text", err_text), ("version", version), ("unknown-ids", unknown_entities),
-            ("ac1-timer-flag", timer_flag), ("repeat-all", repeat_last)]
+            ("ac1-timer-flag", timer_flag), ("repeat-all", repeat_last), ("reinit", reinit)]
 
 
 def run_history(job):
@@ -296,7 +307,8 @@ def run(tier, seed, part=None):
             chk.violation(sig, msg, {"kind": "input", "module": "pvmc.props.c10", "what": "single", "gen": gen, "sig": sig})
         m = menu(gen)
         seqs = [s for d in range(1, depth + 1) for s in itertools.product(range(len(m)), repeat=d)]
-        jobs = [(gen, s) for s in seqs] + [(gen, s, "batch") for s in seqs if len(s) > 1]
+        ri = [x[0] for x in m].index("reinit")
+        jobs = [(gen, s) for s in seqs] + [(gen, s, "batch") for s in seqs if len(s) > 1 and ri not in s]
         res = explorer.pool().map(run_history, jobs, chunksize=32)
         for (g, s, *mode), (sig, msg, snap) in zip(jobs, res):
             total += len(s)
